@@ -1,6 +1,7 @@
 import MaddyVerif.Model.Session
 import Driver.Util
 /-! Driver for C03: `s <S|L> <D|I> <T><partial>:<r0><r1><r2> [P<peer><host>.<limits>] <token>… [O:<seg>,<seg>…]` → replies,
+(recipient tokens `R:…[:<form>]`, `R=`, `R+<form>`: alias families rewritten by the modifier, see `Fam`)
 target logs, leaks, panics, permits out per scope; `t <S|L> <D|I> <a|i|s><order><rate> <k> <peer>` → the replies of
 `k` sessions refused by an exhausted scope and the permits out. -/
 namespace Driver.C03
@@ -65,12 +66,41 @@ def parseData : List String → Option DataF
     pure ⟨kind, cls, has fl 'c', has fl 'm', bm, ids⟩
   | _ => none
 
-/-- tokens left to right; `R=` repeats the address of the R token right before it (NOOP if there is none) -/
-def parseToks : List String → Nat → Option RcptF → Option (List Tok)
-  | [], _, _ => some []
-  | t :: ts, i, lastR =>
+/-- Alias forms of a recipient family (`R:…:<form>`, `R+<form>`): `0` the mailbox, `1` and `b` two aliases of it,
+`2` an alias of alias `1`.  The harness's modifier rewrites `2 → 1 → 0` and `b → 0`, each step into the next of
+the three routed domains: level = number of steps down to the mailbox. -/
+def formLevel : Char → Nat
+  | '1' => 1 | 'b' => 1 | '2' => 2 | _ => 0
+
+def formIdx : Char → Nat
+  | '1' => 1 | '2' => 2 | 'b' => 3 | _ => 0
+
+def formOf (s : String) : Option Char :=
+  match s.toList with
+  | [c] => if c == '0' || c == '1' || c == '2' || c == 'b' then some c else none
+  | _ => none
+
+/-- the family of the address token right before the current one: fields of the `R:` token that opened it, its
+token index (part of every address of the family), the domain of the mailbox -/
+structure Fam where
+  r : RcptF
+  n : Nat
+  baseJ : Nat
+
+/-- a member of the family as the model sees it: `uid` is the RCPT TO argument (an address string of its own per
+form), `dom` the domain of the EFFECTIVE address (the destination block is chosen after the rewriting), the
+fault fields are those of the family (the rewriting keeps them) -/
+def Fam.member (f : Fam) (form : Char) : RcptF :=
+  let j := (f.baseJ + 3 - formLevel form) % 3
+  { f.r with uid := f.n + 100 * formIdx form, dom := if form == '0' then j else (j + 1) % 3 }
+
+/-- tokens left to right; `R=` repeats the address of the R token right before it (NOOP if there is none),
+`R+<form>` is another member of the family of the address token right before it (NOOP if there is none) -/
+def parseToks : List String → Nat → Option RcptF → Option Fam → Option (List Tok)
+  | [], _, _, _ => some []
+  | t :: ts, i, lastR, fam =>
     let t := if t.endsWith "~" then (t.dropEnd 1).toString else t
-    let simple (k : Tok) : Option (List Tok) := (parseToks ts (i + 1) none).map (k :: ·)
+    let simple (k : Tok) : Option (List Tok) := (parseToks ts (i + 1) none none).map (k :: ·)
     match t with
     | "E" => simple .greet
     | "Eh" => simple .helo
@@ -88,17 +118,37 @@ def parseToks : List String → Nat → Option RcptF → Option (List Tok)
     | "Bl" => simple (.bdat true DataF.tail)
     | "R=" =>
       match lastR with
-      | some r => (parseToks ts (i + 1) (some r)).map (Tok.rcpt r :: ·)
+      | some r => (parseToks ts (i + 1) (some r) fam).map (Tok.rcpt r :: ·)
       | none => simple .noop
     | _ =>
+      if t.startsWith "R+" then
+        match formOf (t.drop 2).toString with
+        | none => none
+        | some form =>
+          match fam with
+          | some f =>
+            let r := f.member form
+            (parseToks ts (i + 1) (some r) fam).map (Tok.rcpt r :: ·)
+          | none => simple .noop
+      else
       match t.splitOn ":" with
       | "M" :: rest => do
         let m ← parseMail rest
         simple (.mail m)
       | "R" :: rest => do
+        let (rest, form) ← (match rest with
+          | [a, b, c, d, e, f, g] => (formOf g).map (fun fm => ([a, b, c, d, e, f], fm))
+          | _ => some (rest, '0'))
         let r ← parseRcpt i rest
-        if r.var = .syntax then (parseToks ts (i + 1) none).map (Tok.rcpt r :: ·)
-        else (parseToks ts (i + 1) (some r)).map (Tok.rcpt r :: ·)
+        if r.var = .syntax then (parseToks ts (i + 1) none none).map (Tok.rcpt r :: ·)
+        else if r.dom ≥ 3 then
+          -- a domain without a destination block: not rewritten
+          let r := { r with uid := i + 100 * formIdx form }
+          (parseToks ts (i + 1) (some r) none).map (Tok.rcpt r :: ·)
+        else
+          let f : Fam := ⟨r, i, (r.dom + formLevel form) % 3⟩
+          let r := f.member form
+          (parseToks ts (i + 1) (some r) (some f)).map (Tok.rcpt r :: ·)
       | "D" :: rest => do
         let d ← parseData rest
         simple (.data d)
@@ -189,7 +239,7 @@ def handle : List String → String
         let (toksS, orS) := match rest.reverse with
           | last :: init => if last.startsWith "O:" then (init.reverse, last) else (rest, "O:-")
           | [] => ([], "O:-")
-        match parseToks toksS 0 none, parseOracle orS with
+        match parseToks toksS 0 none none, parseOracle orS with
         | some toks, some oracle =>
           let routes : Nat → Nat := fun j => if j == 0 then r0 else if j == 1 then r1 else if j == 2 then r2 else 0
           let cfg : Cfg := ⟨p == "L", m == "D", nT, pmask, routes⟩
